@@ -1,4 +1,4 @@
-CONSTANTS CacheMode = "all_writers"  MaxOuts = 4
+CONSTANTS CacheMode = "all_writers"  MaxOuts = 4  StartLists = {1}  ListIds = {1, 2, 3, 4, 5, 6}
 SPECIFICATION SSpec
-INVARIANTS HistoryIndependent Shape MemoRight
+INVARIANTS HistoryIndependent Shape SurplusNeverCounted MemoRight
 CHECK_DEADLOCK FALSE
